@@ -413,7 +413,8 @@ def _mutant_child(args):
             undo()
 
 
-def run_mutants(mod, tier, base_seed, runs=3000):
+def run_mutants(mod, tier, base_seed, runs=None):
+    runs = runs or getattr(mod, 'MUTANT_RUNS', 3000)
     names = list(getattr(mod, "MUTANTS", {}).keys())
     if not names:
         return {}
